@@ -38,6 +38,7 @@ CONSTANTS Jobs,         \* sequence of [tpl, alpha, max]: a template (sequence o
                         \* the symbols its holes may be filled with, the total number of hole symbols
           Macros,       \* multi-byte plain symbols that begin and end with a space
           Paths,        \* multi-byte plain symbols that begin with '/' and end with a letter
+          StripLastByteBug, \* FALSE: stripSQLComments as it is now; TRUE: as written before b6c6321 (negative control)
           EmitMode      \* "none" | "all" | "live" (only strings DuckLex accepts with the whole template live)
 
 VARIABLES tid, idx, s, left, fixedAt
@@ -191,43 +192,46 @@ BytesFrom(els, i) == IF i > Len(els) THEN 0 ELSE EW(els[i]) + BytesFrom(els, i+1
 
 \* out: surviving elements (an inserted blank is Blank);
 \* sr: role per element index ("c" kept)
-RECURSIVE AStrip(_, _, _, _), AStripLine(_, _, _, _), AStripBlock(_, _, _, _)
-AStrip(els, i, out, sr) ==
+\* bug = TRUE is stripSQLComments BEFORE arc commit b6c6321 (negative control): after a closed block comment
+\* `if i+1 >= len(sql) { i = len(sql) }` also fired when exactly one byte was left and dropped it.
+\* bug = FALSE (the code as it is now): the rest is skipped only when the comment was NOT closed.
+RECURSIVE AStrip(_, _, _, _, _), AStripLine(_, _, _, _, _), AStripBlock(_, _, _, _, _)
+AStrip(els, i, out, sr, bug) ==
     IF i > Len(els) THEN [out |-> out, sr |-> sr]
     ELSE IF i < Len(els) /\ IsSym(els[i], "m") /\ IsSym(els[i+1], "m")
-      THEN AStripLine(els, i+2, out, sr \o <<"lc.o", "lc.o">>)
+      THEN AStripLine(els, i+2, out, sr \o <<"lc.o", "lc.o">>, bug)
     ELSE IF i < Len(els) /\ IsSym(els[i], "s") /\ IsSym(els[i+1], "a")
-      THEN AStripBlock(els, i+2, out, sr \o <<"bc.o", "bc.o">>)
-    ELSE AStrip(els, i+1, Append(out, els[i]), Append(sr, "c"))
+      THEN AStripBlock(els, i+2, out, sr \o <<"bc.o", "bc.o">>, bug)
+    ELSE AStrip(els, i+1, Append(out, els[i]), Append(sr, "c"), bug)
 
-AStripLine(els, i, out, sr) ==
+AStripLine(els, i, out, sr, bug) ==
     IF i > Len(els) THEN [out |-> out, sr |-> sr]
-    ELSE IF IsSym(els[i], "n") THEN AStrip(els, i+1, Append(out, els[i]), Append(sr, "c"))   \* the newline is kept
-    ELSE AStripLine(els, i+1, out, Append(sr, "lc.i"))
+    ELSE IF IsSym(els[i], "n") THEN AStrip(els, i+1, Append(out, els[i]), Append(sr, "c"), bug)   \* the newline is kept
+    ELSE AStripLine(els, i+1, out, Append(sr, "lc.i"), bug)
 
 Blank == [sym |-> "~", lo |-> 0, hi |-> 0, k |-> -2]     \* the stripper writes a space (0x20)
 \* for i+1 < len(sql): scan for "*/"; the scan never looks at the LAST byte as a first byte
-AStripBlock(els, i, out, sr) ==
+AStripBlock(els, i, out, sr, bug) ==
     IF i > Len(els) THEN [out |-> Append(out, Blank), sr |-> sr]                   \* unterminated: rest skipped
     ELSE IF i < Len(els) /\ IsSym(els[i], "a") /\ IsSym(els[i+1], "s")
-      THEN \* closed; `if i+1 >= len(sql) { i = len(sql) }` : at most one byte left -> it is skipped too
-           IF BytesFrom(els, i+2) <= 1
+      THEN IF bug /\ BytesFrom(els, i+2) <= 1
              THEN [out |-> Append(out, Blank), sr |-> sr \o <<"bc.c", "bc.c">> \o Rep(Len(els) - (i+1), "X")]
-             ELSE AStrip(els, i+2, Append(out, Blank), sr \o <<"bc.c", "bc.c">>)
-    ELSE AStripBlock(els, i+1, out, Append(sr, "bc.i"))
+             ELSE AStrip(els, i+2, Append(out, Blank), sr \o <<"bc.c", "bc.c">>, bug)
+    ELSE AStripBlock(els, i+1, out, Append(sr, "bc.i"), bug)
 
 MapBt(x) == [i \in 1..Len(x) |-> IF x[i] = "b" THEN "d" ELSE x[i]]
 
 \* pipe = "P": checkQueryPermissions / convertSQLToStoragePaths / hasCrossDatabaseSyntax
 \* pipe = "V": ValidateSQLRequest / normalizeSQLForShow (backticks mapped to double quotes first)
-ArcNorm(x0, pipe) ==
+ArcNormB(x0, pipe, bug) ==
     LET x  == IF pipe = "V" THEN MapBt(x0) ELSE x0
         m  == AMask(x, 1, <<>>, <<>>, <<>>)
-        st == AStrip(m.els, 1, <<>>, <<>>)
+        st == AStrip(m.els, 1, <<>>, <<>>, bug)
         \* role of every input symbol: the mask role inside a masked span, else the stripper's role
         elOf(i) == CHOOSE e \in 1..Len(m.els) : m.els[e].lo <= i /\ i <= m.els[e].hi
         roles == [i \in 1..Len(x) |-> IF m.els[elOf(i)].k >= 0 THEN m.ar[i] ELSE st.sr[elOf(i)]]
     IN [els |-> m.els, masks |-> m.masks, out |-> st.out, r |-> roles]
+ArcNorm(x0, pipe) == ArcNormB(x0, pipe, StripLastByteBug)
 
 -----------------------------------------------------------------------------
 (* Views *)
@@ -370,11 +374,15 @@ Analysis ==
         avP  == ArcView(s, aP)
         avV  == IF hasB THEN ArcView(s, aV) ELSE avP
         bare == Bare(Tpl, 1)
+        hasBlk == \E i \in 1..(Len(s)-1) : s[i] = "a" /\ s[i+1] = "s"
+        aB   == IF hasBlk THEN ArcNormB(s, "P", ~StripLastByteBug) ELSE aP      \* the other variant of the stripper
+        avB  == IF hasBlk THEN ArcView(s, aB) ELSE avP
     IN [t |-> tid, s |-> s, dend |-> d.end, dv |-> dv,
         av |-> avP, lab |-> IF avP = dv THEN "none" ELSE DivClass(s, d.r, aP.r),
         avV |-> avV, labV |-> IF avV = dv THEN "none" ELSE DivClass(s, d.r, aV.r),
         mk |-> Flat(aP, aP.els, 1, <<>>), st |-> Flat(aP, aP.out, 1, <<>>), nm |-> Len(aP.masks),
         rt |-> RoundTrip(s, aP),
+        avB |-> avB, labB |-> IF avB = dv THEN "none" ELSE DivClass(s, d.r, aB.r),
         dlive |-> LiveIn(d.r, DuckLex(bare).r) /\ d.end \in {"code", "line"},
         avis  |-> LiveIn(aP.r, ArcNorm(bare, "P").r),
         avisI |-> IF hasDB THEN visI ELSE LiveIn(aP.r, ArcNorm(bare, "P").r),
@@ -383,6 +391,9 @@ Analysis ==
 \* the candidate property: arc's view of the text equals DuckDB's (violated by the model as written --
 \* used only with allow_violation to obtain a candidate; verdicts come from the real code)
 Agree == Complete => (LET d == DuckLex(s) IN d.end \in {"code", "line"} => ArcView(s, ArcNorm(s, "P")) = DuckView(s, d))
+
+\* no byte outside a comment is dropped by the stripper (violated iff StripLastByteBug -- MC_stripbug.cfg)
+NoDrop == \A i \in 1..Len(s) : ArcNorm(s, "P").r[i] # "X"
 
 \* structural invariants of the model itself (must hold)
 Sane ==
@@ -411,6 +422,7 @@ AlphaNest    == {"s","a","w"}
 AlphaNestQ   == {"s","a","w","q"}
 AlphaDollar  == {"D","u","w","q"}
 AlphaMisc    == {"b","J","d","q","w"}
+JobsBug == << [tpl |-> L, alpha |-> AlphaNest, max |-> 5] >>
 JobsTiny == << [tpl |-> L, alpha |-> AlphaAll, max |-> 3] >>
 AlphaQ5      == {"q","k","E","w","d"}
 AlphaBlockQ  == {"s","a","q","w"}
@@ -426,7 +438,8 @@ JobsQuick == << [tpl |-> L, alpha |-> AlphaAll,     max |-> 3],
                 [tpl |-> AfterUTag, alpha |-> AlphaDollar, max |-> 4],
                 [tpl |-> L, alpha |-> AlphaDollar,  max |-> 5],
                 [tpl |-> L, alpha |-> AlphaMisc,    max |-> 5],
-                [tpl |-> L, alpha |-> AlphaPh,      max |-> 4] >>
+                [tpl |-> L, alpha |-> AlphaPh,      max |-> 4],
+                [tpl |-> L, alpha |-> {"u","E","q","w"}, max |-> 4] >>
 JobsThorough == << [tpl |-> L, alpha |-> AlphaAll,     max |-> 4],
                    [tpl |-> L, alpha |-> AlphaQuotes,  max |-> 5],
                    [tpl |-> L, alpha |-> AlphaQ5,      max |-> 7],
